@@ -37,9 +37,9 @@ def params(draw, tier):
                                n_int_max=12, n_int_min=0, pose=False, labels=True))
     p["poseA"] = draw(gen.pose_params())
     p["poseB"] = draw(gen.pose_params())
-    for k in ("poseA", "poseB"):
-        if p[k].get("rot_mode") == "snapchord":
-            p[k]["rot_mode"] = "zero"
+    # pose A may have a first polyline segment that is exactly axis-parallel (pixel-like data); pose B not
+    if p["poseB"].get("rot_mode") == "snapchord":
+        p["poseB"]["rot_mode"] = "zero"
     # make sure the transform between the poses is usually far from the identity
     p["poseB"]["logscale"] = draw(st.sampled_from([-3.0, -1.5, -0.5, 0.0, 0.7, 2.0, 3.0]))
     if draw(st.integers(0, 9)) < 6:
